@@ -87,6 +87,55 @@ def hs(s):
     return hx(s.encode("utf8"))
 
 
+def respell(label, form):
+    """another spelling of a label: Unicode compatibility forms that NFKC folds back to the ASCII label (full-width,
+    mathematical, superscript, roman-numeral letters), and for contrast spellings nothing folds back (case, zero-width
+    joiner, soft hyphen, NFD tail)"""
+    if form in (None, ""):
+        return label
+    if form == "fw":          # every printable ASCII character full-width
+        return "".join(chr(ord(ch) + 0xFEE0) if 0x21 <= ord(ch) <= 0x7E else ch for ch in label)
+    if form == "fw1":         # only the first one
+        return respell(label[:1], "fw") + label[1:]
+    if form == "fwlast":
+        return label[:-1] + respell(label[-1:], "fw")
+    if form == "math":        # mathematical bold digits / letters
+        def m(ch):
+            if ch.isdigit():
+                return chr(0x1D7CE + int(ch))
+            if "a" <= ch <= "z":
+                return chr(0x1D41A + ord(ch) - 97)
+            return ch
+        return "".join(m(ch) for ch in label)
+    if form == "sup":         # superscript / subscript digits where they exist
+        t = {"0": "\u2070", "1": "\u00b9", "2": "\u00b2", "3": "\u00b3", "4": "\u2074", "5": "\u2075", "6": "\u2086",
+             "7": "\u2077", "8": "\u2088", "9": "\u2079"}
+        return "".join(t.get(ch, ch) for ch in label)
+    if form == "roman":       # U+2170.. small roman numerals: i, v, x, l, c, d, m
+        t = {"i": "\u2170", "v": "\u2174", "x": "\u2179", "l": "\u217c", "c": "\u217d", "d": "\u217e", "m": "\u217f"}
+        out, done = [], False
+        for ch in label:
+            if not done and ch in t:
+                out.append(t[ch])
+                done = True
+            else:
+                out.append(ch)
+        return "".join(out)
+    if form == "case":
+        return label.upper() if label.upper() != label else label.lower()
+    if form == "zwj":
+        return label[:1] + "\u200d" + label[1:]
+    if form == "shy":
+        return label[:1] + "\u00ad" + label[1:]
+    if form == "nfd":         # an accent that NFC composes: same text as label+"é" for NFC and NFKC alike
+        return label + "e\u0301"
+    raise ValueError(form)
+
+
+FORMS_K = ["fw", "fw", "fw1", "fwlast", "math", "sup", "roman"]     # NFKC-equivalent to the ASCII label
+FORMS_C = ["case", "zwj", "shy", "nfd"]                                # not equivalent (contrast)
+
+
 def py_classify(phase):
     """reference reading of Boss.got_message's dispatch (ASCII phases only reach it)"""
     import re
@@ -601,13 +650,35 @@ class Runner:
             adds = [m for m in W.sent[who] if m.get("type") == "add" and m["phase"] != "pake"]
             if adds:
                 m = adds[n % len(adds)]
-                side = W.clients[who].side + side_sfx
-                ph = m["phase"]
+                side_form = op[7] if len(op) > 7 else None      # the label in another spelling (see `respell`)
+                phase_form = op[8] if len(op) > 8 else None
+                side = respell(W.clients[who].side, side_form) + side_sfx
+                ph = respell(m["phase"], phase_form)
                 phase = {"append": ph + phase_sfx, "prepend": phase_sfx + ph,
                          "insert": ph[:1] + phase_sfx + ph[1:]}[mode]
                 if self.queue(ci, side, phase, bytes.fromhex(m["body"])):
                     self.tags.add("op:relabel:" + ("own" if who == ci else "peer") + (":side" if side_sfx else "") +
-                                  (":phase" if phase_sfx else ""))
+                                  (":phase" if phase_sfx else "") + (":respelled-side:" + side_form if side_form else "") +
+                                  (":respelled-phase:" + phase_form if phase_form else ""))
+        elif k == "respell":         # a queued frame's side or phase label in another spelling: instead of the genuine
+            ci, i, which, form = op[1:5]     # frame ("replace") or as an extra copy ahead of / behind it ("before"/"after")
+            mode = op[5] if len(op) > 5 else "replace"
+            idx = self.frames(ci)
+            if idx:
+                q = W.clients[ci].conn.s2c
+                j = idx[i % len(idx)]
+                m = bytes_to_dict(q[j])
+                m2 = dict(m)
+                m2[which] = respell(m[which], form)
+                if m2[which] != m[which]:
+                    if mode == "replace":
+                        q[j] = dict_to_bytes(m2)
+                    elif mode == "before":
+                        q.insert(j, dict_to_bytes(m2))
+                    else:
+                        q.insert(j + 1, dict_to_bytes(m2))
+                    self.tampered = True
+                    self.tags.add(f"op:respell:{which}:{form}:{mode}")
         elif k == "nameplate":       # input_code mode: nameplate first
             ci = op[1]
             c = W.clients[ci]
@@ -910,7 +981,7 @@ VERSIONS_PT = [b'{"app_versions": {"k": 1}}', b'{}', b'{"app_versions": {}, "ext
 
 def tamper_op(rng, ci):
     kind = rng.choice(["flip", "flip", "trunc", "extend", "random", "phase", "phase", "side", "side", "dupmsg", "swapmsg",
-                       "relabel", "relabel", "relabel-own", "uniphase",
+                       "relabel", "relabel", "relabel-own", "uniphase", "respell", "respell", "relabel-respelled", "reflect-respelled",
                        "swaplabels", "replay", "replay", "reflect", "reflect", "reflectpake", "fabpake", "fabpake",
                        "keyholder", "keyholder", "keyholder-own", "foreign", "inject"])
     i = rng.randrange(8)
@@ -923,6 +994,15 @@ def tamper_op(rng, ci):
     if kind == "relabel":        # the peer's genuine ciphertext under its label decorated with non-ASCII characters
         return ["relabel", ci, 1 - ci, rng.randrange(8), rng.choice(["", "", "é", "\u00e5"]),
                 rng.choice(UDIGITS + ["", "é"]), rng.choice(["append", "append", "prepend", "insert"])]
+    if kind == "respell":        # a queued frame under another spelling of its side / phase
+        return ["respell", ci, i, rng.choice(["side", "phase"]), rng.choice(FORMS_K + FORMS_K + FORMS_C),
+                rng.choice(["replace", "before", "after"])]
+    if kind == "relabel-respelled":   # the peer's ciphertext again, its labels in another spelling
+        return ["relabel", ci, 1 - ci, rng.randrange(8), "", "", "append", rng.choice([None] + FORMS_K + FORMS_C),
+                rng.choice([None] + FORMS_K + FORMS_C)]
+    if kind == "reflect-respelled":   # our own ciphertext under another spelling of our own side
+        return ["relabel", ci, ci, rng.randrange(8), "", "", "append", rng.choice(FORMS_K + FORMS_K + FORMS_C),
+                rng.choice([None, None] + FORMS_K)]
     if kind == "relabel-own":    # our own ciphertext reflected under (own side + accent)
         return ["relabel", ci, ci, rng.randrange(8), rng.choice(["é", "\u00e5", "\u0661"]), rng.choice(["", "", "\u0661"]), "append"]
     if kind == "uniphase":       # a queued frame re-labelled: its phase with a Unicode digit appended
@@ -1099,6 +1179,32 @@ def corpus():
             out.append(dict(kind="run", seed=10, honest=(sidearg is None),
                             script=H + [["hold", v], ["send", 1 - v, "cc01"], ["pump", 10], ["release", v, mode, sidearg],
                                         ["send", v, "dd01"], ["settle"]]))
+    # compatibility spellings (NFKC folds them to the ASCII label; at HEAD: UnicodeEncodeError -> closes with error) and,
+    # for contrast, spellings nothing folds (case: wrong key -> scared): a client's own version / phase 0 reflected under
+    # another spelling of its OWN side before the peer's message of that phase; the peer's phase 0 replayed under another
+    # spelling of the phase / of the peer's side; queued frames re-spelled in place — before and after key agreement
+    for form in ["fw", "fw1", "math", "sup", "case", "zwj"]:
+        for v in (0, 1):
+            o = 1 - v
+            out.append(dict(kind="run", seed=12, honest=False, deferred=[v],
+                            script=H + [["hold", v, "version"], ["pump", 12], ["relabel", v, v, 0, "", "", "append", form, None],
+                                        ["s2c", v], ["get", v, "versions", 1], ["release", v, "fifo", None], ["settle"]]))
+            out.append(dict(kind="run", seed=12, honest=False, deferred=[v],
+                            script=H + [["send", v, "0b0b"], ["pump", 12], ["relabel", v, v, 1, "", "", "append", form, None],
+                                        ["s2c", v], ["get", v, "message", 1], ["send", o, "0c0c"], ["settle"]]))
+        out.append(dict(kind="run", seed=12, honest=False,
+                        script=H + [["send", 0, "aa01"], ["pump", 12], ["relabel", 1, 0, 1, "", "", "append", None, form], ["s2c", 1],
+                                    ["send", 0, "aa02"], ["settle"]]))
+        out.append(dict(kind="run", seed=12, honest=False,
+                        script=H + [["send", 0, "aa01"], ["pump", 12], ["relabel", 1, 0, 1, "", "", "append", form, None], ["s2c", 1],
+                                    ["send", 0, "aa02"], ["settle"]]))
+        out.append(dict(kind="run", seed=12, honest=False,
+                        script=H + [["pump", 3], ["respell", 1, 0, "side", form, "replace"], ["respell", 0, 0, "phase", form, "before"], ["settle"]]))
+        out.append(dict(kind="run", seed=12, honest=False,
+                        script=H + [["send", 0, "aa01"], ["send", 0, "aa02"], ["pump", 5], ["c2s", 0], ["c2s", 0], ["c2s", 0],
+                                    ["respell", 1, 1, "phase", form, "after"], ["respell", 1, 0, "side", form, "before"], ["settle"]]))
+    out.append(dict(kind="run", seed=12, honest=False,
+                    script=H + [["pump", 12], ["relabel", 1, 0, 0, "", "", "append", None, "roman"], ["s2c", 1], ["settle"]]))
     # Deferred API: pipelined get_message() with >= 2 phases already queued / requests before the messages / chained from
     # inside the callback; the peer's version overtaken by its first numbered phase (server delay), then delivered
     for v in (0, 1):
@@ -1115,6 +1221,14 @@ def corpus():
                                                                                    ["get", v, "message", 1], ["pump", 2], ["release", v, "fifo", None], ["settle"]]))
         out.append(dict(kind="run", seed=11, honest=False, deferred=[v], script=H + [["hold", v, "version"], ["send", o, "c101"], ["pump", 14], ["dupmsg", v, 0],
                                                                                     ["release", v, "fifo", None], ["get", v, "versions", 2], ["settle"]]))
+    # delegate API: the peer's numbered phases overtake its version (server delay), then the version arrives, then close
+    for v in (0, 1):
+        o = 1 - v
+        out.append(dict(kind="run", seed=13, honest=True, deferred=[o],
+                        script=H + [["hold", v, "version"], ["send", o, "c101"], ["send", o, "c202"], ["pump", 14],
+                                    ["release", v, "fifo", None], ["settle"]]))
+        out.append(dict(kind="run", seed=13, honest=True, deferred=[o],
+                        script=H + [["hold", v, "version"], ["send", o, "c101"], ["pump", 14], ["dropmsg", v, "version"], ["settle"]]))
     # input_code: the peer's (or a forged) PAKE arrives before the words
     I = [["open", 0], ["open", 1], ["code", 0], ["nameplate", 1], ["pump", 10]]
     out.append(dict(kind="run", seed=5, honest=True, script=I + [["code", 1], ["send", 0, "01"], ["settle"]]))
@@ -1125,7 +1239,7 @@ def corpus():
 
 def cases(rng, tier):
     out = corpus()
-    n = 330 if tier == "quick" else 4200
+    n = 300 if tier == "quick" else 4000
     for _ in range(n):
         out.append(gen_case(rng))
     if tier == "thorough":
